@@ -181,7 +181,15 @@ def run(check, cases, timeout_s=60, workers=None, n_evals=3):
         elif o["status"] == "validation_mismatch":
             h = check.on_mismatch(c, o) if hasattr(check, "on_mismatch") else None
             if h is None:
-                check.inconc("%s: translator validation mismatch %s" % (c["id"], str(o["mism"][:1])[:300]))
+                if o["mism"] and not c.get("witness"):
+                    # the real evaluator disagrees with the SMT semantics on a concrete vector: judge that vector against the
+                    # independent concrete spec - a confirmed spec violation on the real evaluator is a violation of the property
+                    o["cex"] = o["mism"][0]["inputs"]
+                    o["from_validation"] = True
+                    check.count("validation_mismatch_judged_by_spec")
+                    replay.append((c, o))
+                else:
+                    check.inconc("%s: translator validation mismatch %s" % (c["id"], str(o["mism"][:1])[:300]))
         else:
             check.inconc("%s: %s %s %s" % (c["id"], o["status"], o["note"], o["queries"]))
     # --- replay solver models on the real evaluator
@@ -215,5 +223,5 @@ def run(check, cases, timeout_s=60, workers=None, n_evals=3):
                                 dict(kind="speccheck", module=check.module, case={k: v for k, v in c.items() if not k.startswith("_")},
                                      inputs=o["cex"], job=rj))
             else:
-                check.inconc("%s: solver model did not reproduce on the real evaluator (%s)" % (c["id"], why))
+                check.inconc("%s: %s (%s)" % (c["id"], "translator validation mismatch, but the real evaluator satisfies the spec on that vector" if o.get("from_validation") else "solver model did not reproduce on the real evaluator", why))
     return outs
